@@ -107,6 +107,10 @@ def run(F, rep, tier, allfacts):
         rep.check(bool(ib) and ecfg.must_pass(ib, 0, ok_sites(ef, ecfg)), "COV-init_inner", ent + ":calls-init_inner",
                   "%s:%s" % (ef["file"], ef["line"]), "%s must call init_inner on every successful path" % ent)
 
+    # reused memory: newly exposed heap/stack must read as zero (shared with C23)
+    from props import C23 as _c23
+    _c23.run_growth(F, rep)
+
     # MemoryInstance::reset
     mfe = FieldEffects(cg, r"^fuel_vm::interpreter::memory::MemoryInstance$", r"fuel_vm::interpreter::memory::MemoryInstance")
     mrc = ResetCoverage(mfe)
